@@ -229,6 +229,21 @@ static void show(char ty, uint64_t v)
 
 static void on_alarm(int s) { printf("TIMEOUT\n"); fflush(stdout); _exit(3); }
 
+/* Watchdog in CPU time, not wall-clock time.  A qthreads process that hangs keeps all its workers spinning, so its
+ * CPU time (all threads, ITIMER_PROF) grows at `workers` CPU-seconds per second; a process that is merely starved by
+ * other jobs on the machine accumulates CPU time slowly and is given correspondingly more wall-clock time.  Budget:
+ * `seconds` CPU-seconds per worker.  A very generous wall-clock alarm stays as the last resort. */
+#include <sys/time.h>
+static void watchdog(int seconds)
+{
+    struct itimerval it;
+    long budget = (long)seconds * (long)(qthread_num_workers() > 0 ? qthread_num_workers() : 1);
+    memset(&it, 0, sizeof it);
+    it.it_value.tv_sec = seconds > 0 ? budget : 0;
+    setitimer(ITIMER_PROF, &it, NULL);
+    alarm(seconds > 0 ? 1800 : 0);
+}
+
 static int cmp_u64(const void *a, const void *b)
 {
     uint64_t x = *(const uint64_t *)a, y = *(const uint64_t *)b; return x < y ? -1 : x > y;
@@ -238,6 +253,7 @@ int main(void)
 {
     char  *line = NULL; size_t cap = 0;
     signal(SIGALRM, on_alarm);
+    signal(SIGPROF, on_alarm);
     evlog = malloc(sizeof(ev_t) * EVCAP);
     if (qthread_initialize() != 0) { printf("INITFAIL\n"); return 2; }
     printf("H %u %u %u\n", (unsigned)qthread_num_shepherds(), (unsigned)qthread_num_workers(), (unsigned)qthread_cacheline());
@@ -256,7 +272,7 @@ int main(void)
             sscanf(line, "%*s %15s %15s %3s %d %zu %llu %zu %zu %d", fl, op, tys, &pat, &n, &seed, &start, &stop, &checkfeb);
             char ty = tys[0]; int o = opcode(op);
             uint64_t *a = gen(ty, pat, n, seed); uint64_t res = 0; double abssum;
-            alarm(120);
+            watchdog(60);
             g_ty = ty; g_op = o;
             if (!strcmp(fl, "api")) {
                 if (ty == 'u') { aligned_t (*f[4])(aligned_t *, size_t, int) = { qt_uint_sum, qt_uint_prod, qt_uint_max, qt_uint_min };
@@ -285,7 +301,7 @@ int main(void)
                 else if (!strcmp(fl, "sv")) qt_loopaccum_balance_sv(start, stop, 8, &res, k, a, ac);
                 else qt_loopaccum_balance(start, stop, 8, &res, k, a, ac);
             }
-            alarm(0);
+            watchdog(0);
             uint64_t ref = seqref(ty, o, a, start, stop, &abssum);
             int ok;
             if (ty != 'd' || o >= 2) ok = (res == ref);
@@ -305,12 +321,12 @@ int main(void)
             char ty = !strcmp(which, "aligned") ? 'u' : 'd';
             uint64_t *a = gen(ty, pat, n, seed);
             uint64_t *orig = malloc(n * 8); memcpy(orig, a, n * 8);
-            alarm(wd);
+            watchdog(wd);
             if (!strcmp(which, "qutil")) qutil_qsort((double *)a, n);
             else if (!strcmp(which, "aligned")) qutil_aligned_qsort((aligned_t *)a, n);
             else if (!strcmp(which, "qt")) qt_qsort((double *)a, n);
             else qutil_mergesort((double *)a, n);
-            alarm(0);
+            watchdog(0);
             int sorted = 1;
             for (size_t i = 1; i < n; i++) {
                 if (ty == 'd' ? !(bitsd(a[i - 1]) <= bitsd(a[i])) : !(a[i - 1] <= a[i])) { sorted = 0; break; }
@@ -335,10 +351,10 @@ int main(void)
             pair_cnt = calloc(n1 * n2 + 1, 1);
             ap_n2 = n2; evn = 0; ev_overflow = 0; ap_active = 0; ap_delay = delay;
             memset(lastnull, 0, sizeof lastnull);
-            alarm(getenv("C13_AP_WATCHDOG") ? atoi(getenv("C13_AP_WATCHDOG")) : 60);
+            watchdog(getenv("C13_AP_WATCHDOG") ? atoi(getenv("C13_AP_WATCHDOG")) : 30);
             qt_allpairs(a1, a2, dist);
             aligned_t act = ap_active;
-            alarm(0);
+            watchdog(0);
             size_t bad = 0, firstbad = 0;
             for (size_t k = 0; k < n1 * n2; k++) if (pair_cnt[k] != 1) { if (!bad) firstbad = k; bad++; }
             size_t nenq = 0, ne = evn < EVCAP ? evn : EVCAP;
